@@ -17,12 +17,14 @@ type Ev = core.Ev
 
 // Op is one abstract call.  Keys are ranks (1-based) in the history's pool.
 type Op struct {
-	Name string
-	K    int
-	V    int
-	Dir  string
-	Ks   []int
-	Vs   []int
+	Name  string
+	K     int // key rank; for Swap / PutAllFrom: the handle of a held object (0 = the focus itself)
+	V     int
+	Dir   string
+	Ks    []int
+	Vs    []int
+	Hold  bool // keep what the call returns / was given (slice, original of a round trip) and observe it again later
+	Other *Obj // PutAllFrom: the argument object (set by the session from K)
 }
 
 func (o Op) String() string {
@@ -40,6 +42,7 @@ var OpArgs = map[string]string{
 	"Put": "kv", "Unipoint": "kv", "Add": "kv", "AddIfExist": "kv",
 	"Get": "k", "ContainsKey": "k", "Contains": "k", "HasKey": "k", "Remove": "k",
 	"ContainsValue": "v", "Sort": "dir", "PutAll": "ks",
+	"Swap": "h", "PutAllFrom": "h",
 }
 
 // Obj is one real collection behind the uniform adapter.  Every function
@@ -55,9 +58,28 @@ type Obj struct {
 	Proj func() (keys, vals []int) // full enumeration
 	Pool []string                  // human readable, for the Reset event
 	Hdr  Ev                        // configuration of the object the specification needs (Reset event)
+	Raw  func() interface{}        // the real object (an argument of PutAllFrom on another object)
+	// set by a call, taken over by the session:
+	LastArr *Arr // the slice the call returned / was given
+	Forked  *Obj // the object that stays alive beside this one (RoundTrip with Hold: the map that was written)
 }
 
-func (o *Obj) Has(name string) bool { _, ok := o.Ops[name]; return ok }
+// Arr is a slice a call returned or was given and that the harness (the caller)
+// still has: read again later, and written into.
+type Arr struct {
+	Of    string             // "ret": returned by the call, "arg": given to it
+	Kind  string             // "k": elements are keys (logged as ranks), "v": values
+	Read  func() []int       // its content now (projected)
+	Write func(i int, x int) // element i := key of rank x / value x
+}
+
+func (o *Obj) Has(name string) bool {
+	if name == "Swap" {
+		return true
+	}
+	_, ok := o.Ops[name]
+	return ok
+}
 
 // Watchdog is how long a single call may take before it is recorded as a
 // self-deadlock ("Timeout").  A call on these in-memory structures takes
@@ -92,7 +114,7 @@ func Guarded(f func()) (panicMsg string, timedOut bool) {
 // Session drives one object and writes its history.
 type Session struct {
 	T      *core.Trace
-	O      *Obj
+	O      *Obj // the focus: the object calls are made on
 	Events int
 	Dead   bool // a Panic/Timeout was recorded: the object is not used any more
 	Full   bool // every event carries the full projection (graph replay)
@@ -100,7 +122,16 @@ type Session struct {
 	since  int
 	LastK  []int
 	LastV  []int
+	// several live objects of the same type over the same pool (PlainMap.tla held, arrs)
+	Fac    func(Ctor) *Obj // constructs one more object
+	Held   []*Obj          // handle h = Held[h-1]
+	Arrs   []*Arr          // slices in the harness's hands
+	LastHK [][]int         // last full enumeration of every held object
+	LastHV [][]int
 }
+
+const maxHeld = 3 // held objects per history
+const maxArrs = 2 // held slices per history
 
 func nz(a []int) []int {
 	if a == nil {
@@ -150,9 +181,28 @@ func (s *Session) Do(op Op) Ev {
 		return nil
 	}
 	f := s.O.Ops[op.Name]
+	switch op.Name {
+	case "Swap": // calls go to held object K from now on; the focus is held in its place
+		if op.K < 1 || op.K > len(s.Held) {
+			panic("c12: no held object to swap with")
+		}
+		f = func(op Op) Ev { s.O, s.Held[op.K-1] = s.Held[op.K-1], s.O; return Ev{} }
+	case "PutAllFrom":
+		if op.K < 0 || op.K > len(s.Held) {
+			panic("c12: no held object to put from")
+		}
+		if op.Other = s.O; op.K > 0 {
+			op.Other = s.Held[op.K-1]
+		}
+	}
 	if f == nil {
 		panic("no op " + op.Name + " on " + s.O.Type)
 	}
+	if op.Hold && ((op.Name == "RoundTrip" && len(s.Held) >= maxHeld) || (op.Name != "RoundTrip" && len(s.Arrs) >= maxArrs)) {
+		op.Hold = false
+	}
+	obj := s.O
+	obj.LastArr, obj.Forked = nil, nil
 	hkey := s.O.Type + "." + op.Name
 	if hung[hkey] >= hungLimit {
 		return nil
@@ -169,13 +219,19 @@ func (s *Session) Do(op Op) Ev {
 		ev["dir"] = op.Dir
 	case "ks":
 		ev["ks"], ev["vs"] = nz(op.Ks), nz(op.Vs)
+	case "h":
+		ev["h"] = op.K
 	}
 	var res Ev
 	var size int
 	var pk, pv []int
+	var held Ev
 	msg, to := Guarded(func() {
 		res = f(op)
 		size = s.O.Size()
+		if op.Hold && obj.LastArr != nil {
+			held = Ev{"ev": "Hold", "of": obj.LastArr.Of, "seq": nz(obj.LastArr.Read()), "size": size}
+		}
 		if s.Full {
 			pk, pv = s.O.Proj()
 		}
@@ -192,15 +248,108 @@ func (s *Session) Do(op Op) Ev {
 	}
 	ev["size"] = size
 	s.size = size
+	if op.Hold && obj.Forked != nil {
+		ev["hold"] = true
+		s.Held = append(s.Held, obj.Forked)
+	}
 	s.T.Emit(ev)
 	s.Events++
 	s.since++
+	if held != nil {
+		s.Arrs = append(s.Arrs, obj.LastArr)
+		s.T.Emit(held)
+		s.Events++
+	}
 	if s.Full {
 		s.emitProj(pk, pv, size)
+		s.HProjNow()
 	} else if s.since >= 16 {
 		s.ProjNow()
 	}
 	return ev
+}
+
+// New constructs one more object of the type over the same key pool and holds it.
+func (s *Session) New(c Ctor) bool {
+	if s.Dead || s.Fac == nil || len(s.Held) >= maxHeld {
+		return false
+	}
+	var o *Obj
+	var size int
+	msg, to := Guarded(func() { o = s.Fac(c); size = s.O.Size() })
+	if msg != "" || to {
+		s.fail("New", msg, to)
+		return false
+	}
+	s.Held = append(s.Held, o)
+	s.T.Emit(Ev{"ev": "New", "ctor": o.Ctor, "size": size})
+	s.Events++
+	if s.Full {
+		s.HProjNow()
+	}
+	return true
+}
+
+// HProjNow records the full enumeration and Size() of every held object.
+func (s *Session) HProjNow() {
+	s.LastHK, s.LastHV = make([][]int, len(s.Held)), make([][]int, len(s.Held))
+	for i, o := range s.Held {
+		if s.Dead {
+			return
+		}
+		var k, v []int
+		var size, hsize int
+		msg, to := Guarded(func() { k, v = o.Proj(); hsize = o.Size(); size = s.O.Size() })
+		if msg != "" || to {
+			s.fail(fmt.Sprintf("HProj:%d", i+1), msg, to)
+			return
+		}
+		s.LastHK[i], s.LastHV[i] = k, v
+		s.T.Emit(Ev{"ev": "HProj", "h": i + 1, "keys": nz(k), "vals": nz(v), "hsize": hsize, "size": size})
+		s.Events++
+	}
+}
+
+// ArrRead reads held slice a (1-based) again.
+func (s *Session) ArrRead(a int) {
+	if s.Dead || a < 1 || a > len(s.Arrs) {
+		return
+	}
+	var seq []int
+	var size int
+	msg, to := Guarded(func() { seq = s.Arrs[a-1].Read(); size = s.O.Size() })
+	if msg != "" || to {
+		s.fail(fmt.Sprintf("Held:%d", a), msg, to)
+		return
+	}
+	s.T.Emit(Ev{"ev": "Held", "a": a, "seq": nz(seq), "size": size})
+	s.Events++
+}
+
+// ArrScribble overwrites every element of held slice a (the caller's own memory)
+// with what elem draws, then records its content and the full enumerations: no
+// object may have noticed.
+func (s *Session) ArrScribble(a int, elem func(kind string) int) {
+	if s.Dead || a < 1 || a > len(s.Arrs) {
+		return
+	}
+	arr := s.Arrs[a-1]
+	var seq []int
+	var size int
+	msg, to := Guarded(func() {
+		for i := range arr.Read() {
+			arr.Write(i, elem(arr.Kind))
+		}
+		seq = arr.Read()
+		size = s.O.Size()
+	})
+	if msg != "" || to {
+		s.fail(fmt.Sprintf("Scribble:%d", a), msg, to)
+		return
+	}
+	s.T.Emit(Ev{"ev": "Scribble", "a": a, "seq": nz(seq), "size": size})
+	s.Events++
+	s.ProjNow()
 }
 
 func (s *Session) emitProj(k, v []int, size int) {
@@ -223,6 +372,9 @@ func (s *Session) ProjNow() {
 		return
 	}
 	s.emitProj(k, v, size)
+	if !s.Full {
+		s.HProjNow()
+	}
 }
 
 // Less is the comparator family used for Sort, on ranks.
@@ -270,14 +422,15 @@ func chainCaps(initCap int) []uint {
 	return g[:3]
 }
 
-// pickKeys selects n distinct keys: the specials, a group that shares a bucket
+// pickKeys selects n distinct keys: the specials, the groups `full` (keys with
+// identical full hashes, where the type's hash has such), a group that shares a bucket
 // at caps[0] AND caps[1] (most of them also at caps[2]): chains that survive
 // re-bucketing, a group that collides at caps[0] only (chains that re-bucketing
 // splits), a few keys of bucket 0, the rest arbitrary.  hash replicates the
 // bucket hash of the type under test; it only steers the generator.
 // direct (optional) constructs the j-th key that collides with seed at all three
 // sizes; budget bounds the search among the candidates.
-func pickKeys[K comparable](r *rand.Rand, n int, cand func(i int) K, special []K, hash func(K) uint, caps []uint,
+func pickKeys[K comparable](r *rand.Rand, n int, cand func(i int) K, special []K, full [][]K, hash func(K) uint, caps []uint,
 	direct func(seed K, j int) (K, bool), budget int) []K {
 	have := map[K]bool{}
 	var out []K
@@ -294,6 +447,15 @@ func pickKeys[K comparable](r *rand.Rand, n int, cand func(i int) K, special []K
 	for i, k := range sp {
 		if i < (n+2)/3 {
 			add(k)
+		}
+	}
+	// whole groups of different keys with IDENTICAL full hashes (one chain at every
+	// table size; "same hash" and "same key" differ on these only)
+	for _, g := range full {
+		if len(out)+len(g) <= n*2/3 {
+			for _, k := range g {
+				add(k)
+			}
 		}
 	}
 	c0, c1, c2 := caps[0], caps[1], caps[2]
